@@ -200,7 +200,7 @@ def run(ctx, env):
     # failed decode is what makes a later known-only packet differ from the default build
     ctx.rule("R17.6", "the records a decoder reports are made by that decode alone: every element added to the reported collection derives from the input slice, and the collection itself is created by the call - not the drained / taken content of storage kept in the parser object (a reusable buffer that a failed decode leaves half-filled would surface in a later packet); evaluated on the feature-off program: with the feature off decodes fail part-way at every unknown field, so such storage is what makes a later known-only packet differ from the default build (shared with C02 R2.10)")
     from . import consume as _consume17
-    _consume17.foreign_rule(ctx, off, An(off), "R17.6", lambda b: b.path.startswith("variable_versions::"), floor=2)
+    _consume17.foreign_rule(ctx, off, An(off), "R17.6", lambda b: b.path.startswith("variable_versions::"), floor=0)
 
 
 def run_thorough(ctx, env):
